@@ -141,7 +141,7 @@ pub fn gen_random_word(src: &mut Source, lang: &str, upper_ok: bool) -> String {
 /// a word: random letters, real word, stem-bearing, doubled letter, function word, inner punctuation
 pub fn gen_word(src: &mut Source, lang: &str, flavor: Flavor) -> String {
     let adv = flavor == Flavor::Adversarial;
-    let k = src.weighted(&[10, if lang == "en" || lang == "none" { 5 } else { 0 }, 4, 2, 3, if adv { 2 } else { 0 }, 1]);
+    let k = src.weighted(&[10, if lang == "en" || lang == "none" { 5 } else { 0 }, 4, 2, 3, if adv { 2 } else { 1 }, 1]);
     match k {
         0 => gen_random_word(src, lang, true),
         1 => src.pick(en_words()).to_string(),
@@ -255,7 +255,10 @@ pub fn gen_any_char(src: &mut Source) -> char {
             _ => src.below(0x110000),
         } as u32;
         if let Some(c) = std::char::from_u32(v) {
-            return c;
+            // U+E000 / U+E001 are the harness's sentinel highlight markers
+            if c != '\u{E000}' && c != '\u{E001}' {
+                return c;
+            }
         }
     }
 }
